@@ -581,3 +581,15 @@ THEOREMS = THEOREMS + ["OdxVerif.Codec." + t for t in [
     "C01_linear_float_leaf_ok", "ex11Temp_ok", "ex11_described", "ex9Mx_described", "ex12_described",
     "IdLeaf.convOk", "IdLeaf.comp_ok", "IdLeaf.constComp_ok", "IdLeaf.defaultComp_ok", "IdLeaf.encode_not_admitted", "IdLeaf.described",
     "IdLeaf.constDescribed", "IdLeaf.defaultDescribed", "ex13N_ok", "ex13R_ok", "ex13_described"]]
+# W25 (wire condition of C01_roundtrip_nested2R derived from the layout: Descs2R.resPre_of_layout / resFree; closure of Described2 over
+# arbitrary leaf classes: Described2X, UTF-16LE leaves inside field items and multiplexer cases: Described2U) — appended
+LEAN_TARGETS = LEAN_TARGETS + ["OdxVerif.Props.C01Nested2R2", "OdxVerif.Props.C01Nested2U"]
+THEOREMS = THEOREMS + ["OdxVerif.Codec." + t for t in [
+    "C01_wire_condition_of_layout", "C01_roundtrip_nested2R_reserved_free", "C01_roundtrip_nested2R_reserved_free_whole",
+    "Descs2R.resPre_of_layout", "Desc2R.resPre_of_zero", "Descs2R.resPre_of_zero_top", "Descs2R.resAll_of_resFree",
+    "RtHyp.seq_left", "RtHyp.seq_right", "RtHyp.sized", "reserved_resPre_of_zero",
+    "exRes_free", "exU16Req_free", "exResBS_ok", "exResBS_enc", "exResBS_free",
+    "C01_roundtrip_nested2U", "C01_roundtrip_nested2U_whole", "C01_roundtrip_nested2U_of_described2", "Described2X.ok", "Described2X.mono",
+    "Described2U.ok", "DescribedTopU.ok", "LeafU.ok", "exU_described", "exU_enc", "C01_reserved_in_field_items_model",
+    "C01_roundtrip_nested2R_static_wire", "Descs2R.resPre_of_static", "Desc2R.resPre_of_wire", "Descs2R.resPre_of_wire_top",
+    "Desc2R.struct_rtHyp"]]
